@@ -16,6 +16,7 @@ import (
 	"sync"
 
 	"github.com/icon-project/goloop/block"
+	"github.com/icon-project/goloop/common/codec"
 	"github.com/icon-project/goloop/common/crypto"
 	"github.com/icon-project/goloop/common/log"
 	"github.com/icon-project/goloop/common/wallet"
@@ -284,12 +285,23 @@ var _ fastsync.BlockResult = (*blockResult)(nil)
 type csInternal interface {
 	Start() error
 	ReceiveBlockResult(br fastsync.BlockResult)
+	OnReceive(sp module.ProtocolInfo, bs []byte, id module.PeerID) (bool, error)
 }
+
+type peerID []byte
+
+func (p peerID) Bytes() []byte              { return p }
+func (p peerID) Equal(o module.PeerID) bool { return bytes.Equal(p, o.Bytes()) }
+func (p peerID) String() string             { return fmt.Sprintf("%x", []byte(p)) }
 
 // runBlockResult: one list per world (processBlock adds the votes to the
 // height vote set before it decides, so a consensus instance is used once).
-func runBlockResult(c *ev.Ctx, r *rand.Rand, n int) {
+func runBlockResult(c *ev.Ctx, r *rand.Rand, mode int) {
 	c.Eval(1)
+	n := 1 + r.Intn(5)
+	if mode >= 2 {
+		n = 3 + r.Intn(4) // floor(2n/3) >= 2: room for two distinct signers below the quorum
+	}
 	vals, foreign, index := freshKeys(r, n)
 	w, setupErr := newWorld(vals)
 	defer w.close()
@@ -300,7 +312,7 @@ func runBlockResult(c *ev.Ctx, r *rand.Rand, n int) {
 	}
 	cs, ok := w.i.CS.(csInternal)
 	if !ok {
-		c.Notef("consensus of the fixture has no ReceiveBlockResult")
+		c.Notef("consensus of the fixture has no ReceiveBlockResult/OnReceive")
 		c.Count("blockresult_setup_failed", 1)
 		return
 	}
@@ -309,14 +321,95 @@ func runBlockResult(c *ev.Ctx, r *rand.Rand, n int) {
 		c.Count("blockresult_setup_failed", 1)
 		return
 	}
-	t := w.target1(int32(r.Intn(3)))
-	g := genList(r, n, vals, foreign, index, t, w.blk1.Timestamp()+1)
+	round := int32(r.Intn(3))
+	if mode >= 2 {
+		round = 0
+	}
+	t := w.target1(round)
+	base := w.blk1.Timestamp() + 1
+	floor := 2 * n / 3
+	sign := func(vi int, ts int64, kind string) item {
+		return item{ts, vals[vi].SignRSV(voteHash(t, ts)), kind}
+	}
+	var g *gen
+	predelivered := map[int]bool{}
+	switch mode {
+	case 0: // clean certificate (positive control)
+		g = &gen{n: n, floor: floor}
+		size := floor + 1 + r.Intn(n-floor)
+		for _, vi := range r.Perm(n)[:size] {
+			g.items = append(g.items, sign(vi, base+r.Int63n(1<<40), "good"))
+		}
+		g.judge(index, t)
+	case 1:
+		g = genList(r, n, vals, foreign, index, t, base)
+	case 2: // under-quorum set of distinct signers, padded with re-timestamped duplicates
+		g = &gen{n: n, floor: floor}
+		d := 2 + r.Intn(floor-1) // 2..floor distinct signers
+		signers := r.Perm(n)[:d]
+		ts0 := base + r.Int63n(1<<40)
+		var first, dups []item
+		for _, vi := range signers {
+			first = append(first, sign(vi, ts0, "good"))
+		}
+		pads := floor + 1 - d + r.Intn(2)
+		for k := 0; k < pads; k++ {
+			dups = append(dups, sign(signers[r.Intn(d)], ts0+1+int64(k), "dup-other-ts"))
+		}
+		order := r.Intn(4)
+		if order >= 2 {
+			order = 0 // duplicate last is the order that matters most
+		}
+		switch order {
+		case 0:
+			g.items = append(first, dups...)
+			c.Count("blockresult_dup_last", 1)
+		case 1:
+			// each duplicate right after the first vote of the list, then the rest
+			g.items = append(append([]item{first[0]}, dups...), first[1:]...)
+		}
+		if r.Intn(4) == 0 {
+			r.Shuffle(len(g.items), func(i, j int) { g.items[i], g.items[j] = g.items[j], g.items[i] })
+		}
+		g.kinds = []string{"dup-other-ts"}
+		g.judge(index, t)
+		c.Count("blockresult_underquorum_padded_with_duplicates", 1)
+	default: // precommits delivered as votes first, then a list of re-timestamped precommits of the same signers
+		g = &gen{n: n, floor: floor}
+		u := 2 + r.Intn(floor-1)
+		union := r.Perm(n)[:u]
+		ts0 := base + r.Int63n(1<<40)
+		for _, vi := range union {
+			vm := consensus.NewVoteMessage(walletOf(vals[vi]), consensus.VoteTypePrecommit, 1, 0, w.blk1.ID(),
+				&consensus.PartSetID{Count: uint16(w.psid1.countWord), Hash: w.psid1.hash}, ts0, nil, nil, 0)
+			_, _ = cs.OnReceive(consensus.ProtoVote, codec.MustMarshalToBytes(vm), peerID{1, 2, 3, 4})
+			predelivered[vi] = true
+		}
+		k := 1 + r.Intn(u)
+		for _, j := range r.Perm(u)[:k] {
+			g.items = append(g.items, sign(union[j], ts0+1+int64(r.Intn(5)), "good"))
+		}
+		if r.Intn(3) == 0 {
+			g.items = append(g.items, sign(union[r.Intn(u)], ts0+10, "dup-other-ts"))
+		}
+		g.kinds = []string{"predelivered-resigned"}
+		g.judge(index, t)
+		c.Count("blockresult_predelivered_votes", 1)
+	}
 	raw := encodeList(t, g.items)
 	c.Note("blockresult n=%d validators(priv)=%v list=%x", n, privHex(vals), raw)
 	wit := func(what string) map[string]interface{} {
 		m := g.witness(t, raw, index)
 		m["what"] = what
 		m["entry"] = "ReceiveBlockResult"
+		m["mode"] = []string{"clean", "general", "underquorum-padded-with-duplicates", "predelivered-votes-then-list"}[mode]
+		var pre []int
+		for vi := 0; vi < n; vi++ {
+			if predelivered[vi] {
+				pre = append(pre, vi)
+			}
+		}
+		m["predelivered_validator_indices"] = pre
 		m["validators_priv"] = privHex(vals)
 		return m
 	}
@@ -345,13 +438,19 @@ func runBlockResult(c *ev.Ctx, r *rand.Rand, n int) {
 	// decided here: consumed only with > 2/3 distinct valid member precommits,
 	// and a clean certificate must be consumed. A quorum with additional bad
 	// items may go either way (counted).
-	quorum := 3*g.distinctValid > 2*n
+	union := 0
+	for vi := 0; vi < n; vi++ {
+		if g.wantVoted[vi] || predelivered[vi] {
+			union++
+		}
+	}
+	quorum := 3*union > 2*n
 	switch {
 	case br.consumed && !quorum:
 		c.Violation("blockresult.consumes-without-quorum."+g.reason+"."+g.kindKey(), wit("Consume() without > 2/3 distinct valid precommits"))
 	case !br.consumed && !br.rejected:
 		c.Violation("blockresult.neither-consumed-nor-rejected", wit("no verdict"))
-	case br.rejected && g.want:
+	case br.rejected && g.want && len(predelivered) == 0:
 		c.Violation("blockresult.rejects-valid-certificate", wit("Reject() on a clean certificate"))
 	case br.consumed && g.want:
 		c.Count("blockresult_consume_agreed", 1)
